@@ -54,7 +54,7 @@ def plan(tier, seed):
     nmax = 5 if tier == "quick" else 7
     nmaps = len(MAPS)
     lays = (0, 1, 2, 3)
-    shards = [("grid", mi, n, lay) for mi in range(nmaps) for n in range(1, nmax + 1) for lay in lays] + [("absent",), ("many",)] + [("meta", k) for k in range(len(SONGS))]
+    shards = [("grid", mi, n, lay) for mi in range(nmaps) for n in range(1, nmax + 1) for lay in lays] + [("absent",), ("many",)] + [("meta", k) for k in range(len(SONGS))] + [("far",)]
     return dict(shards=shards, bounds=dict(max_notes=nmax, tick_alphabet=list(TICKS), maps=[list(map(list, m)) for m in MAPS[:nmaps]], sustain_layouts=len(lays)), budget_s=600)
 
 
@@ -133,6 +133,32 @@ def run_shard(shard, ctx):
             for e_ in marks:
                 check(ctx, c, text, G, [["tick", s_], ["tick", e_]], oracle(nt, q(s_), q(e_)), "700 notes")
                 check(ctx, c, text, G, [["us", q(s_)], ["us", q(e_) + (s_ % 2)]], oracle(nt, q(s_), q(e_) + (s_ % 2)), "700 notes")
+        return
+    if shard[0] == "far":
+        # interval MAGNITUDES: ends hours, exactly one day, days and years after the last note (as timestamps and
+        # as ticks), starts on and off notes
+        DAY = 86400 * 10**6
+        for mi in (0, 2):
+            tempo = ((0, 120000),) + MAPS[mi]
+            sync = ["0 = TS 4"] + ["%d = B %d" % x for x in tempo]
+            ticks = (0, 10, 99, 130)
+            body = ["%d = N %d %d" % (t, i % 5, 3 if i == 1 else 0) for i, t in enumerate(ticks)]
+            text = mk(res=100, sync=sync, tracks={"ExpertSingle": body})
+            c = impl.parse(text)
+            q = lambda t: impl.query(c, t)  # noqa: E731
+            nt = [q(t) for t in ticks]
+            G = ("GUITAR", "EXPERT")
+            what = "far bounds; notes at ticks %r tempo %r" % (list(ticks), [list(x) for x in tempo])
+            ends = [3600 * 10**6, DAY - 1, DAY, DAY + 1, DAY + 10**7, 2 * DAY, 10 * DAY + 1, 400 * DAY, 10**15]
+            for s_ in (0, 1, nt[1], nt[1] + 1, nt[-1]):
+                for e_ in ends:
+                    ctx.node()
+                    check(ctx, c, text, G, [["us", s_], ["us", e_]], oracle(nt, s_, e_), what)
+                    check(ctx, c, text, G, [["us", s_], ["us", s_ + e_]], oracle(nt, s_, s_ + e_), what)
+            for st in (0, 10, 11, 130):
+                for et in (17_280_000, 17_282_000, 34_560_000 + 130, 40_000_000, 10**10, 2**40):
+                    ctx.node()
+                    check(ctx, c, text, G, [["tick", st], ["tick", et]], oracle(nt, q(st), q(et)), what)
         return
     if shard[0] == "meta":
         song = SONGS[shard[1]]
